@@ -55,6 +55,11 @@ theorem inv_step {cfg : Cfg} (hg : cfg.Good) {s : St} {d : Disk} (h : Inv cfg s 
     simp only [step, Option.map_eq_some_iff, Prod.mk.injEq] at hs
     obtain ⟨s1, hs1, rfl, rfl⟩ := hs
     exact inv_recStep h hs1
+  | compactStart _ => cases hff
+  | trBegin => cases hff
+  | trPut _ => cases hff
+  | trCommit => cases hff
+  | trDiscard => cases hff
 
 theorem inv_run {cfg : Cfg} (hg : cfg.Good) {sd sd' : St × Disk} (h : Inv cfg sd.1 sd.2) (as : List Act)
     (hff : ∀ a ∈ as, a.faultFree = true) (hr : run cfg sd as = some sd') : Inv cfg sd'.1 sd'.2 := by
